@@ -10,7 +10,7 @@ import (
 )
 
 func init() {
-	probeNames["C08"] = []string{"fault_in_commit", "fault_in_data_write", "fault_in_header_write", "fault_in_first_sync", "fault_in_final_sync", "fault_outside_commit", "fault_during_open", "commit_failed", "commit_ok", "liveness_checked", "liveness_second_attempt", "durability_checked", "final_state_is_later_attempt", "short_write", "burst_spans_transactions"}
+	probeNames["C08"] = []string{"fault_in_commit", "fault_in_data_write", "fault_in_header_write", "fault_in_first_sync", "fault_in_final_sync", "fault_outside_commit", "fault_during_open", "commit_failed", "commit_ok", "liveness_checked", "liveness_second_attempt", "durability_checked", "final_state_is_later_attempt", "short_write", "burst_spans_transactions", "reopen_with_maxsize_update"}
 	register(&PropDef{
 		ID: "C08", Level: "fault_enumeration", QuickSec: 55, ThoroSec: 1200,
 		Rule: "each run = one seeded txops history (<=10 transactions, incl. reopen) with a fault plan aimed at the I/O calls a fault-free dry run of the same seed performs: kind in {write error before effect, short write then error, sync error, truncate error, size error, mmap error, read error at open} x call index x burst in {1,2,3,until end of transaction}; a fault-free configuration of every seed runs first with the strict oracle. Oracles: no panic, no hang (scheduler deadlock detection), after every transaction a fresh read transaction sees exactly the last successfully committed model state, a commit that reported success is durable (durable-only image reopens to it), a commit during which one of its writes/syncs failed does not report success, once faults stopped a write transaction commits within 2 attempts, and after clean close+reopen the state is the last committed one or the complete state of a later attempt whose header write was issued. Non-trivial = at least one fault actually fired inside a transaction or an open; distinct = op list + fault plan + config + schedule hash.",
@@ -251,6 +251,7 @@ func c08Body(e *Env) {
 	// reopen under faults: close, open (may fail while faults are active: retry
 	// without faults), then the file shows the last committed state or the
 	// complete state of a later attempt whose header write was issued
+	reopenRng := e.Rng("c08reopen")
 	reopen := func(final bool) {
 		var err error
 		e.Guard("C08", "File.Close", func() { err = r.F.Close() })
@@ -268,6 +269,17 @@ func c08Body(e *Env) {
 			class = "reopen-after-failed-final-sync"
 			what = fmt.Sprintf("close and reopen after %d commit attempt(s) that failed after their header write had reached the file (no successful commit since)", len(laterAttempts))
 		}
+		// some reopens also change the maximum size (internal transactions at open time)
+		opts := r.Options()
+		newMax := 0
+		if r.Cfg.MaxSize > 0 && reopenRng.Intn(5) == 0 {
+			newMax = r.Cfg.MaxSize + 64<<10
+			opts.Flags |= txfile.FlagUpdMaxSize
+			opts.MaxSize = uint64(newMax)
+			opts.InitMetaArea = 0
+			what += fmt.Sprintf(" with FlagUpdMaxSize (max size %d -> %d)", r.Cfg.MaxSize, newMax)
+			e.Probe("reopen_with_maxsize_update")
+		}
 		open := func() (err error, panicked bool) {
 			defer func() {
 				if p := recover(); p != nil {
@@ -275,7 +287,7 @@ func c08Body(e *Env) {
 					err = fmt.Errorf("panic: %v at %s", p, shortStack())
 				}
 			}()
-			return r.OpenRaw(), false
+			return r.OpenRawWith(opts), false
 		}
 		firedBefore := firedTotal()
 		err, panicked := open()
@@ -299,6 +311,11 @@ func c08Body(e *Env) {
 		exp := r.Cur()
 		switch {
 		case hdr.TxID == r.Cur().TxID:
+		case newMax > 0 && len(laterAttempts) == 0 && hdr.TxID-r.Cur().TxID <= 4:
+			// the size-changing open ran header-only transactions (possibly twice after
+			// a failed first attempt): contents must be unchanged
+			exp = r.Cur().clone()
+			exp.TxID = hdr.TxID
 		case len(laterAttempts) > 0 && hdr.TxID == r.Cur().TxID+1:
 			exp = laterAttempts[len(laterAttempts)-1].clone()
 			exp.TxID = hdr.TxID
@@ -317,9 +334,17 @@ func c08Body(e *Env) {
 		if msg != "" {
 			e.Fail("C08", class, "%s: the file claims state #%d (txid %d) but does not hold it completely: %s", what, exp.N, hdr.TxID, msg)
 		} else if exp != r.Cur() {
-			r.Hist = append(r.Hist, exp)
+			if exp.N == r.Cur().N {
+				r.Cur().TxID = exp.TxID
+			} else {
+				r.Hist = append(r.Hist, exp)
+			}
 		}
 		tx.Close()
+		if newMax > 0 {
+			r.Cfg.MaxSize = newMax
+			r.CheckLocksIdle(what)
+		}
 		laterAttempts = nil
 		if !e.Failed() {
 			r.CheckPartition()
